@@ -34,6 +34,13 @@ def run(ctx):
     progs = PROGRAMS + [gen_program(ctx.rng) for _ in range(2 if q else 10)]
     deep = [("dfs", 6000 if q else 400000, 3)]
     jobs = make_jobs(ctx, "bag", VARIANTS, progs) + make_jobs(ctx, "bag", VARIANTS, DEEP, strat=deep)
+    # ABA scenarios need one thread stalled right before its head CAS while another thread completes many operations: schedules whose decision
+    # points are the read-modify-write accesses only (--points rmw), and one long "free" thread between a stalled put and a stalled get (seeded change C21b)
+    LONG = ["put:1;get,get|put:2,put:3,get,get,reputf,get,get|put:5;drainq", "put:1,put:2;get,reput,get|put:3,get,get,reputf,put:4,get,reput|put:5,get;drainq"]
+    rmw = [("random", 1200 if q else 30000, 0), ("pct", 300 if q else 8000, 0)]
+    jobs += make_jobs(ctx, "bag", VARIANTS, LONG + PROGRAMS[:1], strat=rmw, extra_of=lambda v: ["--points", "rmw"])
+    # exhaustive over the CAS points with 5 pre-emptions (the stalled put, the stalled get and the free thread need that many); ~45 000 executions
+    jobs += make_jobs(ctx, "bag", ["freelist", "taggedfreelist"], LONG[:1], strat=[("dfs", 60000 if q else 3000000, 5 if q else 6)], extra_of=lambda v: ["--points", "rmw"], time_limit=400 if q else 2400)
     vlib.run_jobs(ctx, jobs)
     vlib.validate_histories(ctx, jobs, "LinBag", CONSTS)
     ctx.impl_runs.append({"driver": "bag", "variants": VARIANTS, "programs": progs + DEEP, "strategies": strategies(ctx)})
